@@ -44,9 +44,13 @@ def run(ctx: Ctx):
         for bi, j in enumerate(base):
             decl = {"container": ["set", "list"][(seed + bi) % 2], "perm_seed": ctx.rng.randint(0, 10**6)}
             jobs.append(dict(j, decl=decl, only_generate=True, repeat=2, warmup_defn=(other if seed % 2 else None)))
-        res = ctx.run_impl_jobs("cpp_gen.py", jobs, env={"PYTHONHASHSEED": str(seed * 7919 + 1)}, shards=min(8, len(jobs)))
+        # every other interpreter also runs under a simulated calendar date / clock
+        env = {"PYTHONHASHSEED": str(seed * 7919 + 1)}
+        if seed % 2 == 1:
+            env["FV_FAKE_DATE"] = ["2031-03-14", "2027-11-02"][(seed // 2) % 2]
+        res = ctx.run_impl_jobs("cpp_gen.py", jobs, env=env, shards=min(8, len(jobs)))
         for bi, r in enumerate(res):
-            runs.setdefault(bi, []).append((seed, jobs[bi]["decl"], r))
+            runs.setdefault(bi, []).append((seed, dict(jobs[bi]["decl"], simulated_date=env.get("FV_FAKE_DATE", "today")), r))
     for bi, lst in runs.items():
         d = base[bi]["defn"]
         ties = len({x.lower() for x in d["state"] + d["control"] + d["calibration"]}) < len(d["state"] + d["control"] + d["calibration"])
@@ -57,8 +61,11 @@ def run(ctx: Ctx):
             if "error" in r:
                 ctx.violation(f"generation failed under PYTHONHASHSEED / declaration variant: {r['kind']}", {"definition": d, "seed": seed, "decl": decl, "error": r["error"]}, key="gen-raises")
                 continue
+            if r.get("config_unchanged") is False:
+                ctx.violation(f"generation changed the cpp.Config object it was given: {r.get('config_after')}",
+                              {"definition": d, "seed": seed, "decl": decl, "config_after": r.get("config_after")}, key="config-mutated")
             if any(s != r["shas"][0] for s in r["shas"]):
-                ctx.violation("generating the same definition again in the same interpreter (also after another model) gives different C++ text",
+                ctx.violation("generating the same definition again in the same interpreter (also after another model, and twice with one Config object) gives different C++ text",
                               {"definition": d, "seed": seed, "decl": decl, "shas": r["shas"]}, key="same-process-differs")
             key = (r["header_sha"], r["source_sha"], tuple(r["py_arglist"]), str(r["py_readings"]), r.get("py_values"))
             if ref is None:
